@@ -65,6 +65,10 @@ def root_and_depth(e):
     return None, d
 
 
+def _private(name):
+    return name.startswith("_") and not (name.startswith("__") and name.endswith("__"))
+
+
 class FuncEvents:
     """events of one function, per CFG node"""
 
@@ -72,12 +76,13 @@ class FuncEvents:
         self.P = P
         self.func = func
         self.model = model
-        self.ty = typer_for(P, func)
+        self.ty = typer_for(P, func, param_types=model._ptypes.get(func.key) if model is not None else None)
         self.cfg = self.ty.cfg
         self.by_node = {}
         self.aliases = {}  # var -> (recv expr, cls, field) for `v = X._f`
         self.fresh = {}  # var -> class name (constructed in this activation)
         self.unresolved = []
+        self.pwrites = []  # (param index, op, element param index or None): a private helper mutating a container it was handed
         self._prescan()
         for n in self.cfg.nodes:
             self.by_node[n.id] = self._events(n)
@@ -250,6 +255,26 @@ class FuncEvents:
             if isinstance(c, ast.expr):
                 self._expr(c, env, evs, stmt)
 
+    def _param_writes(self, cev, env, evs, stmt):
+        """a private helper that mutates a container handed to it (`_insert_at(self._ports, port, i)`): the write belongs to the
+        field the caller passed"""
+        if self.model is None:
+            return
+        for t in cev.targets or []:
+            if not _private(t.name) or t.key == self.func.key or t.key in self.model._building:
+                continue
+            tfe = self.model.events(t)
+            if not tfe.pwrites:
+                continue
+            amap = self.model.argmap(cev, t)
+            for pi, op, eli in tfe.pwrites:
+                arg = amap.get(pi)
+                fr = self._field_ref(arg, env) if arg is not None else None
+                if fr is None:
+                    continue
+                recv, cls, field = fr
+                evs.append(Ev("write", cev.node, stmt, cls=cls, field=field, recv=recv, op=op, elem=amap.get(eli) if eli is not None else None, value=None))
+
     def _call(self, call, env, evs, stmt):
         k = self._notify_kind(call)
         if k is not None:
@@ -265,6 +290,12 @@ class FuncEvents:
             m = f.attr
             if m in MUTATING_METHODS:
                 fr = self._field_ref(f.value, env)
+                if fr is None and isinstance(f.value, ast.Name) and f.value.id in self.func.params and _private(self.func.name) \
+                        and self.func.role in ("function", "static", "method"):
+                    el = (call.args[-1] if m == "insert" else call.args[0]) if call.args else None
+                    eli = self.func.params.index(el.id) if isinstance(el, ast.Name) and el.id in self.func.params else None
+                    self.pwrites.append((self.func.params.index(f.value.id), MUTATING_METHODS[m], eli))
+                    return
                 if fr is not None:
                     recv, cls, field = fr
                     el = None
@@ -281,6 +312,7 @@ class FuncEvents:
                 if isinstance(recv, ast.Call) and norm(recv.func) == "super":
                     recv = ast.Name(id="self", ctx=ast.Load())
                 evs.append(Ev("call", call, stmt, targets=tg, recv=recv, args=list(call.args), bound=True))
+                self._param_writes(evs[-1], env, evs, stmt)
             elif tg is None:
                 self.unresolved.append(call)
             return
@@ -297,6 +329,7 @@ class FuncEvents:
             mod = self.func.module
             if fn in mod.functions:
                 evs.append(Ev("call", call, stmt, targets=[mod.functions[fn]], recv=None, args=list(call.args)))
+                self._param_writes(evs[-1], env, evs, stmt)
 
 
 class Model:
@@ -311,6 +344,9 @@ class Model:
         self.refusable = self._refusable()
         self._events = {}
         self._summaries = None
+        self._building = set()
+        self._ptypes = {}  # private IR helper key -> {param name: abstract type}, inferred from its call sites
+        self._ptypes_done = False
 
     def _refusable(self):
         """kinds whose NamespaceManager handler can reach a `raise` inside the plugin package
@@ -363,10 +399,50 @@ class Model:
         out = {k for k in out if not k.startswith("create_")}
         return out
 
+    def _infer_param_types(self):
+        """private helpers (one leading underscore) are only called from inside the package: the kinds of their parameters are the
+        join of the kinds of the arguments at their call sites (two rounds: helpers that call helpers)"""
+        self._ptypes_done = True
+        from .kinds import join, TOP, Env
+        for rnd in range(2):
+            new = {}
+            for f in self.ir_funcs():
+                fe = self.events(f)
+                for nid, evs in fe.by_node.items():
+                    for ev in evs:
+                        if ev.kind != "call" or ev.ctor:
+                            continue
+                        for t in ev.targets or []:
+                            nm = t.name
+                            if not (nm.startswith("_") and not (nm.startswith("__") and nm.endswith("__"))) or t.role not in ("method", "static", "function"):
+                                continue
+                            amap = self.argmap(ev, t)
+                            env = fe.ty.state.get(nid, Env())
+                            for idx, arg in amap.items():
+                                if idx >= len(t.params) or arg is None or (idx == 0 and t.role == "method"):
+                                    continue
+                                ty = fe.ty.type_of(arg, env)
+                                if ty is None or ty == TOP:
+                                    continue
+                                d = new.setdefault(t.key, {})
+                                d[t.params[idx]] = join(d[t.params[idx]], ty) if t.params[idx] in d else ty
+            if new == self._ptypes:
+                break
+            changed = {k for k in set(new) | set(self._ptypes) if new.get(k) != self._ptypes.get(k)}
+            self._ptypes = new
+            for k in changed:
+                self._events.pop(k, None)
+
     def events(self, func):
+        if not self._ptypes_done:
+            self._infer_param_types()
         fe = self._events.get(func.key)
         if fe is None or fe.func is not func:
-            fe = FuncEvents(self.P, func, self)
+            self._building.add(func.key)
+            try:
+                fe = FuncEvents(self.P, func, self)
+            finally:
+                self._building.discard(func.key)
             self._events[func.key] = fe
         return fe
 
@@ -396,7 +472,7 @@ class Model:
         off = 0
         if ev.ctor:
             off = 1  # self is the fresh object
-        elif ev.bound:
+        elif ev.bound and getattr(target, "role", None) != "static":
             amap[0] = ev.recv
             off = 1
         for i, a in enumerate(ev.args or []):
